@@ -135,8 +135,16 @@ def _worker(task):
             res["samples"].append(dict(harness=h.name, params=_jsonable(params), inputs=_jsonable(compact_inputs(pr.inputs)), outcome=key,
                                        steps=pr.steps, checks=[f"{l}={v}" for l, v in pr.checks][:8]))
 
+    known_open = {k["key"] for k in load_known() if k["property"] == prop and k.get("status") == "open"}
+
+    def stop():
+        # once a job has produced natively confirmed, not-yet-known violations its verdict is decided
+        n = sum(1 for v in res["violations"] if v["confirmed"] and f"{h.name}:{v['label']}" not in known_open)
+        n += len(eng.violations) if not known_open else 0
+        return n >= 3
+
     try:
-        leftover = eng.explore(fn, on_path, prefixes=prefixes, max_paths=max_paths, deadline=time.time() + seconds)
+        leftover = eng.explore(fn, on_path, prefixes=prefixes, max_paths=max_paths, deadline=time.time() + seconds, stop=stop)
     except BaseException as e:  # engine bug -> harness error
         return dict(task=(hname, pidx), error="".join(traceback.format_exception(e))[-3000:])
     # violations found by c.check()
@@ -151,6 +159,7 @@ def _worker(task):
                                       native=repr(out)[:300]))
     res["stats"] = dict(eng.stats)
     res["leftover"] = leftover
+    res["stopped"] = getattr(eng, "stopped", False)
     res["task"] = (hname, pidx)
     res["encoded"] = dict(interp.encoded)
     return res
@@ -178,16 +187,22 @@ def run_property(prop, tier, seed, only=None, workers=None, verbose=False):
     pending = collections.deque()
     for h in hs:
         for i, _ in enumerate(h._jobs):
-            pending.append((prop, h.name, i, [[]], CHUNK_PATHS, CHUNK_SECONDS))
+            pending.append((prop, h.name, i, [[]], 16, 4.0))
         agg["per_harness"][h.name] = dict(paths=0, jobs=len(h._jobs), reached=collections.Counter(), outcomes=collections.Counter(),
                                           steps_max=0)
     ctx = mp.get_context("fork")
     extra = getattr(mod, "extra_checks", None)
     with cf.ProcessPoolExecutor(max_workers=workers, mp_context=ctx) as ex:
         running = set()
+        dead = set()
         while pending or running:
             while pending and len(running) < workers * 2:
-                running.add(ex.submit(_worker, pending.popleft()))
+                t_ = pending.popleft()
+                if (t_[1], t_[2]) in dead:
+                    continue
+                running.add(ex.submit(_worker, t_))
+            if not running:
+                continue
             done, running = cf.wait(running, return_when=cf.FIRST_COMPLETED)
             for f in done:
                 r = f.result()
@@ -196,9 +211,11 @@ def run_property(prop, tier, seed, only=None, workers=None, verbose=False):
                     agg["errors"].append(f"{hname}[{pidx}]: {r['error']}")
                     continue
                 left = r["leftover"]
-                if left:
+                if r.get("stopped"):
+                    dead.add((hname, pidx))
+                if left and (hname, pidx) not in dead:
                     # split the remaining work-list over several tasks
-                    k = max(1, min(len(left), workers))
+                    k = max(1, min(len(left), workers if len(left) < 4 * workers else 2 * workers))
                     for j in range(k):
                         part = left[j::k]
                         if part:
